@@ -631,10 +631,14 @@ def script_of(req):
 def contract_run(script):
     c = Contract()
     out = []
+    import copy
     for st in script['steps']:
         res = []
+        # a step marked `abandoned` is a transaction dropped without commit: the calls answer as
+        # usual, but nothing of them remains
+        cc = copy.deepcopy(c) if st.get('abandoned') else c
         for call in st['calls']:
-            res.append(c.call(st['client'], call) if not c.unspecified else {'unspecified': True})
+            res.append(cc.call(st['client'], call) if not cc.unspecified else {'unspecified': True})
         out.append(res)
     return out
 
